@@ -573,3 +573,86 @@ func keptWord(k bool) string {
 	}
 	return "removed"
 }
+
+func init() {
+	register(&Rule{ID: "T-cmp", Min: 36, Run: runTCmp,
+		Doc: "sign/magnitude structure of the exact comparison: Number.Cmp, with the integer-part and fractional-part digit comparisons as ordering atoms, orders two numbers by sign first, then by integer part, then by fraction, and mirrors the whole magnitude comparison when both are negative — for all 2x2 sign combinations and 3x3 part orderings"})
+}
+
+func runTCmp(c *load.Ctx, r *report.RuleResult) {
+	e := newTableEnv(c)
+	cmp := c.Func(pkgJSON, "Number.Cmp")
+	ci := c.Func(pkgJSON, "Number.cmpInt")
+	cf := c.Func(pkgJSON, "Number.cmpFra")
+	numT := namedType(c, pkgJSON, "Number")
+	if cmp == nil || ci == nil || cf == nil || numT == nil {
+		r.Unk("anchor|json.Number.Cmp/cmpInt/cmpFra", "", "not found")
+		return
+	}
+	delete(e.cfg.Intrinsics, cmp.String())
+	labels := []string{"<", "=", ">"}
+	e.cfg.Intrinsics[ci.String()] = func(in *pe.Interp, args []pe.Value) (pe.Value, bool) {
+		return int64(in.Choose("intpart", labels) - 1), true
+	}
+	e.cfg.Intrinsics[cf.String()] = func(in *pe.Interp, args []pe.Value) (pe.Value, bool) {
+		return int64(in.Choose("fraction", labels) - 1), true
+	}
+	pos := c.Pos(cmp.Pos())
+	outs := pe.ExploreFn(e.cfg, func(in *pe.Interp) pe.Value {
+		n := structWith(in, numT, map[string]pe.Value{"neg": pe.NewSym("a.neg", types.Typ[types.Bool]), "nat": pe.NewSym("a.nat", fieldTypeOf(numT, "nat")), "exp": pe.NewSym("a.exp", types.Typ[types.Int])})
+		m := structWith(in, numT, map[string]pe.Value{"neg": pe.NewSym("b.neg", types.Typ[types.Bool]), "nat": pe.NewSym("b.nat", fieldTypeOf(numT, "nat")), "exp": pe.NewSym("b.exp", types.Typ[types.Int])})
+		return in.Call(cmp, []pe.Value{n, &pe.Ptr{Obj: in.NewObj(numT, m, "b"), T: numT}})
+	})
+	num := map[string]int{"<": -1, "=": 0, ">": 1}
+	// judged on total valuations: an unconsulted atom stands for all of its values
+	for _, an := range []string{"false", "true"} {
+		for _, bn := range []string{"false", "true"} {
+			for _, ip := range labels {
+				for _, fp := range labels {
+					key := fmt.Sprintf("cmp|a.neg=%s|b.neg=%s|int%s|fra%s", an, bn, ip, fp)
+					var want int
+					switch {
+					case an == bn:
+						want = num[ip]
+						if want == 0 {
+							want = num[fp]
+						}
+						if an == "true" {
+							want = -want
+						}
+					case an == "true":
+						want = -1
+					default:
+						want = 1
+					}
+					matched := 0
+					for _, o := range outs {
+						val := o.ChoiceMap()
+						ok := true
+						for atom, v := range map[string]string{"a.neg": an, "b.neg": bn, "intpart": ip, "fraction": fp} {
+							if got, asked := val[atom]; asked && got != v {
+								ok = false
+							}
+						}
+						if !ok {
+							continue
+						}
+						matched++
+						got, isInt := o.Ret.(int64)
+						switch {
+						case o.Undecided != "" || o.Panicked || !isInt:
+							r.Unk(key, pos, o.Exit())
+						case int(got) != want:
+							r.Bad(key, pos, fmt.Sprintf("Cmp returns %d; by sign, then integer part, then fraction it must be %d", got, want))
+						default:
+							r.OK(key, pos, fmt.Sprint(got))
+						}
+					}
+					if matched != 1 {
+						r.Unk(key+"|paths", pos, fmt.Sprintf("%d paths match this valuation", matched))
+					}
+				}
+			}
+		}
+	}
+}
